@@ -41,10 +41,12 @@ var _ Pass = (*InlineObjectsWithTypes)(nil)
 type InlineObjectsWithTypes struct {
 	InlineTypes     []ast.Kind
 	objectsToInline *orderedmap.Map[string, ast.Type]
+	inlining        map[string]bool
 }
 
 func (pass *InlineObjectsWithTypes) Process(schemas []*ast.Schema) ([]*ast.Schema, error) {
 	pass.objectsToInline = orderedmap.New[string, ast.Type]()
+	pass.inlining = make(map[string]bool)
 
 	for _, schema := range schemas {
 		schema.Objects.Iterate(func(_ string, object ast.Object) {
@@ -82,7 +84,7 @@ func (pass *InlineObjectsWithTypes) Process(schemas []*ast.Schema) ([]*ast.Schem
 	return newSchemas, nil
 }
 
-func (pass *InlineObjectsWithTypes) processRef(_ *Visitor, _ *ast.Schema, def ast.Type) (ast.Type, error) {
+func (pass *InlineObjectsWithTypes) processRef(visitor *Visitor, schema *ast.Schema, def ast.Type) (ast.Type, error) {
 	if !pass.objectsToInline.Has(def.Ref.String()) {
 		return def, nil
 	}
@@ -90,5 +92,14 @@ func (pass *InlineObjectsWithTypes) processRef(_ *Visitor, _ *ast.Schema, def as
 	typeDef := pass.objectsToInline.Get(def.Ref.String()).DeepCopy()
 	typeDef.AddToPassesTrail(fmt.Sprintf("InlineObjectsWithTypes[original=%s]", def.Ref.String()))
 
-	return typeDef, nil
+	// the inlined type might itself refer to objects that are being inlined
+	// (but a recursive type can not be inlined into itself).
+	if pass.inlining[def.Ref.String()] {
+		return typeDef, nil
+	}
+
+	pass.inlining[def.Ref.String()] = true
+	defer delete(pass.inlining, def.Ref.String())
+
+	return visitor.VisitType(schema, typeDef)
 }
